@@ -1,28 +1,47 @@
 """C20: regression solves the regularised least-squares problem on every component grid.
 Correspondence  Model/Regress.v (extracted)  <->  GridOperation.Regression, plus the property's own predicate
-(exact-rational design matrix, gradient Gram matrix, normal-equation residual) on the implementation outputs."""
+(exact-rational design matrix, gradient Gram matrix, normal-equation residual) on the implementation outputs.
+
+Cases are single requests on a fresh object or SHORT HISTORIES (several requests on one object / several objects in one
+process).  The model is a pure function of one request, so every step of a history is compared like a single case; the
+reported case of a violation contains the history up to the failing step.  Sizes straddle the typical internal block
+sizes / thresholds (64, 128, 200, 256, 512, 1024, 2048, 4096 samples; 200, 256, 1024 hats)."""
 import itertools
+import math
+import os
 from fractions import Fraction as F
 
 from .. import sx
 from ..impl import run_impl
 from ..model import run_model
 from . import _de
-from ._de import fr, qvec, qmat, vec_close, mat_close
+from ._de import fr, qmat, mat_close
 
 ASSUMPTIONS = [
     'exact-arithmetic model over Qc; implementation floats converted to exact rationals; tolerance 1e-11 for matrix entries',
     'np.linalg.lstsq is not modelled: its result is checked by the verified residual checker residual_ok '
-    '(|L alpha - r|_i <= 1e-8 * max_i (sum_j |L_ij||alpha_j| + |r_i|)) against the model system',
+    '(|L alpha - r|_i <= 1e-8 * max(max_i (sum_j |L_ij||alpha_j| + |r_i|), max_i (|A|^T|y|)_i / m)) against the model system '
+    '(residual_ok_floor: cancellation-aware scale, A^T y may cancel to 0 for duplicated samples with opposite targets); for component grids whose '
+    'exact model evaluation is too expensive (N^2 m + 4 N^2 d > 1.2e5) the same bound is evaluated by the exact-rational '
+    'Python oracle only and the model is compared on the design matrix (all or sampled rows) and on the smoothing matrix',
     'the scaled training data are read from the implementation (DataSet scaling itself is C18); the scaling to '
     '[0.05, 0.95] is checked by the oracle only',
-    'sklearn train_test_split is not modelled: the training split is read from the implementation',
+    'sklearn train_test_split is not modelled: the training split is read from the implementation (its size is checked)',
     'Opticom: only the property clause (coefficients sum to one) and the shared normalisation step are checked',
+    'positive semi-definiteness for d >= 2: verified checker psd_check on the model specification matrix (<= 30 hats) and on the '
+    'exact image of the implementation matrix (<= 9 hats); larger implementation matrices (<= 64 hats) by the Python exact '
+    'elimination only, which is cross-checked against psd_check on the smaller ones',
 ]
 
 REL_M = 1e-11
 TOL_RES = F(1, 10 ** 8)
 RANGE = (0.05, 0.95)
+CAP_FULL = 120000          # N^2 m + 4 N^2 d up to which the whole model entry (incl. residual checker) is run
+CAP_ROWS = 40000           # N * rows for the design-matrix-only model entry
+N_C_MODEL = 130            # smoothing matrices through the model up to this number of hats
+N_C_IMPL = 300             # smoothing matrix of the implementation read up to this number of hats
+N_PSD = 64
+THRESHOLDS = (64, 128, 200, 256, 512, 1000, 1024, 2048, 4096)
 
 
 # ----------------------------------------------------------------------------------------------- specification
@@ -47,25 +66,54 @@ def spec_C(stripes):
     hs = _de.grid_hats(stripes)
     n = len(hs)
     dim = len(stripes)
+    gc, mc = {}, {}
+
+    def g1(a, b):
+        k = (a, b)
+        if k not in gc:
+            gc[k] = gradgram1(a, b)
+        return gc[k]
+
+    def m1(a, b):
+        k = (a, b)
+        if k not in mc:
+            mc[k] = _de.gram1(a, b)
+        return mc[k]
     C = [[F(0)] * n for _ in range(n)]
     for i in range(n):
+        hi = hs[i]
         for j in range(i, n):
+            hj = hs[j]
             v = F(0)
             for d in range(dim):
-                t = gradgram1(hs[i][d], hs[j][d])
+                t = g1(hi[d], hj[d])
                 for m in range(dim):
                     if t == 0:
                         break
                     if m != d:
-                        t *= _de.gram1(hs[i][m], hs[j][m])
+                        t *= m1(hi[m], hj[m])
                 v += t
             C[i][j] = C[j][i] = v
     return C
 
 
 def spec_A(stripes, data):
-    hs = _de.grid_hats(stripes)
-    return [[_de.spec_hat_nd(t, x) for t in hs] for x in data]
+    """basis values at the sample points; hats of one dimension are evaluated once per sample"""
+    tr = [_de.triples(s) for s in stripes]
+    out = []
+    for x in data:
+        per_dim = [[_de.hat1(t[0], t[1], t[2], x[d]) for t in tr[d]] for d in range(len(tr))]
+        row = []
+        for vals in itertools.product(*per_dim):
+            v = F(1)
+            for w in vals:
+                if w == 0:
+                    v = F(0)
+                    break
+                v *= w
+            row.append(v)
+        out.append(row)
+    return out
 
 
 def is_psd(G):
@@ -93,88 +141,290 @@ def is_psd(G):
 
 
 def spec_residual(A, C, lam, use_C, y, alpha):
-    """returns max_i |(L alpha - r)_i| / max_i (sum_j |L_ij||alpha_j| + |r_i|) for the stated problem"""
+    """max_i |(L alpha - r)_i| / max_i (sum_j |L_ij||alpha_j| + |r_i|) for the stated problem
+    L = A^T A / m + lambda M, r = A^T y / m.  Without a smoothing matrix (lambda = 0 or M = identity) all entries of L
+    are non-negative (hat values are), so both vectors are formed by matrix-vector products; identical values."""
     m = len(A)
     n = len(A[0]) if A else 0
+    if len(alpha) != n or len(y) != m:
+        return F(10 ** 9)
     cols = [[A[r][c] for r in range(m)] for c in range(n)]
-    ress, bounds = [], []
-    for i in range(n):
-        row = []
-        for j in range(n):
-            v = sum((a * b for a, b in zip(cols[i], cols[j])), F(0)) / m
-            if lam != 0:
-                v += lam * (C[i][j] if use_C else (1 if i == j else 0))
-            row.append(v)
-        ri = sum((a * b for a, b in zip(cols[i], y)), F(0)) / m
-        ress.append(abs(sum((a * b for a, b in zip(row, alpha)), F(0)) - ri))
-        bounds.append(sum((abs(a) * abs(b) for a, b in zip(row, alpha)), F(0)) + abs(ri))
-    scale = max(bounds + [F(0)])
+    nz = [[r for r in range(m) if col[r] != 0] for col in cols]
+    if lam == 0 or not use_C:
+        aal = [abs(a) for a in alpha]
+        Aa = [sum((row[j] * alpha[j] for j in range(n) if row[j] != 0), F(0)) for row in A]
+        Aab = [sum((row[j] * aal[j] for j in range(n) if row[j] != 0), F(0)) for row in A]
+        ress, bounds = [], []
+        for i in range(n):
+            ri = sum((cols[i][k] * y[k] for k in nz[i]), F(0)) / m
+            li = sum((cols[i][k] * Aa[k] for k in nz[i]), F(0)) / m + lam * alpha[i]
+            bi = sum((cols[i][k] * Aab[k] for k in nz[i]), F(0)) / m + lam * aal[i]
+            ress.append(abs(li - ri))
+            bounds.append(bi + abs(ri))
+    else:
+        ress, bounds = [], []
+        for i in range(n):
+            row = []
+            si = set(nz[i])
+            for j in range(n):
+                v = sum((cols[i][k] * cols[j][k] for k in nz[j] if k in si), F(0)) / m + lam * C[i][j]
+                row.append(v)
+            ri = sum((cols[i][k] * y[k] for k in nz[i]), F(0)) / m
+            ress.append(abs(sum((a * b for a, b in zip(row, alpha)), F(0)) - ri))
+            bounds.append(sum((abs(a) * abs(b) for a, b in zip(row, alpha)), F(0)) + abs(ri))
+    # cancellation-aware scale (DESIGN section 3): the solve works on A and y, its backward error is relative to |A^T||y|/m
+    floor = max([sum((abs(cols[i][k]) * abs(y[k]) for k in nz[i]), F(0)) / m for i in range(n)] + [F(0)]) if m else F(0)
+    scale = max(bounds + [floor])
     worst = max(ress + [F(0)])
     if worst == 0:
         return F(0)
     return worst / scale if scale != 0 else F(10 ** 9)
 
 
+def split_sizes(n, pct):
+    """sizes of sklearn.model_selection.train_test_split as used by train(): test = ceil(pct n), validation = ceil(.15 rest)"""
+    n_test = math.ceil(pct * n) if isinstance(pct, float) else int(pct)
+    rest = n - n_test
+    n_val = math.ceil(0.15 * rest)
+    return rest - n_val, n_val, n_test
+
+
+def n_for_training_size(m, pct):
+    """smallest n whose training part has at least m samples"""
+    n = int(m / ((1 - pct) * 0.85))
+    while split_sizes(n, pct)[0] < m:
+        n += 1
+    return n
+
+
 # ----------------------------------------------------------------------------------------------- generators
-def gen_xy(rng, dim, M, below_minus_one=False):
-    data = []
-    for _ in range(M):
-        data.append([_de.dyadic(rng, rng.choice([2, 3, 4])) for _ in range(dim)])
-    # make sure every feature has a non-degenerate range
-    for d in range(dim):
-        data[rng.randrange(M)][d] = 0.0
-        data[rng.randrange(M)][d] = 1.0
-    if rng.random() < 0.8:
-        # mid-range coordinates scale to 0.5 - 2^-54, one ulp below the node 0.5 (see finding C20-cv-hat-ulp-below-node);
-        # most cases avoid them so that the downstream checks are exercised
-        data = [[0.5625 if v == 0.5 else v for v in x] for x in data]
+STYLES = ['dyadic01', 'dyadic01', 'dyadic01', 'float', 'shifted', 'int', 'dup', 'constfeat']
+
+
+def gen_xy(rng, dim, M, below_minus_one=False, style=None, ystyle=None):
+    style = style or rng.choice(STYLES)
+    if style == 'constfeat' and dim == 1:
+        style = 'dyadic01'
+    if style in ('dyadic01', 'constfeat'):
+        k = rng.choice([2, 3, 4]) if M < 200 else 6
+        data = [[_de.dyadic(rng, k) for _ in range(dim)] for _ in range(M)]
+        for d in range(dim):       # every feature has the range [0, 1]: the default scaling is x -> 0.05 + 0.9 x
+            data[rng.randrange(M)][d] = 0.0
+            i = rng.randrange(M)
+            while data[i][d] == 0.0 and M > 1 and sum(1 for x in data if x[d] == 0.0) == 1:
+                i = rng.randrange(M)
+            data[i][d] = 1.0
+        if rng.random() < 0.8:
+            # mid-range coordinates scale to 0.5 - 2^-54, one ulp below the node 0.5 (see finding C20-cv-hat-ulp-below-node);
+            # most cases avoid them so that the downstream checks are exercised
+            data = [[0.5625 if v == 0.5 else v for v in x] for x in data]
+        if style == 'constfeat':
+            d = rng.randrange(dim)
+            c = rng.choice([0.25, -3.0, 7.5])
+            for x in data:
+                x[d] = c
+    elif style == 'float':
+        data = [[rng.random() for _ in range(dim)] for _ in range(M)]
+    elif style == 'shifted':       # features with different offsets / scales, negative values
+        off = [rng.choice([-3.0, 0.0, 10.0, 1000.0]) for _ in range(dim)]
+        sc = [rng.choice([0.001, 1.0, 8.0, 250.0]) for _ in range(dim)]
+        data = [[off[d] + sc[d] * rng.randrange(0, 65) / 64 for d in range(dim)] for _ in range(M)]
+    elif style == 'int':
+        data = [[rng.randrange(-5, 21) for _ in range(dim)] for _ in range(M)]
+    else:                          # 'dup': few distinct points, many repetitions
+        pts = [[_de.dyadic(rng, 3) for _ in range(dim)] for _ in range(max(2, M // 4))]
+        data = [list(rng.choice(pts)) for _ in range(M)]
+    ystyle = ystyle or rng.choice(['dyadic', 'dyadic', 'dyadic', 'float', 'const', 'big', 'ties'])
     lo = -16 if below_minus_one else -4
-    y = [rng.randrange(lo, 17) / 4 for _ in range(M)]
-    return data, y
+    if ystyle == 'dyadic':
+        y = [rng.randrange(lo, 17) / 4 for _ in range(M)]
+    elif ystyle == 'float':
+        y = [rng.uniform(-3, 3) for _ in range(M)]
+    elif ystyle == 'const':
+        y = [rng.choice([0.0, 1.0, -2.5])] * M
+    elif ystyle == 'big':
+        y = [float(rng.randrange(-4000, 4001)) for _ in range(M)]
+    else:
+        y = [float(rng.choice([-1, 0, 1])) for _ in range(M)]
+    return data, y, style, ystyle
 
 
-def gen_direct(rng, quick, uniform):
-    dim = rng.choice([1, 2, 2, 2, 3])
+LAMS = [0, 0, 0.125, 0.125, 0.01, 1.0, 1e-6, 1e-4, 100.0]
+
+
+def gen_direct(rng, quick, uniform, size=None):
+    """size: None (small) | 'manyrows' (many samples, few hats) | 'manyhats' (many hats, few samples) | 'midhats'"""
+    dim = rng.choice([1, 2, 2, 2, 3]) if size is None else rng.choice([1, 2])
+    lam = rng.choice(LAMS)
+    matrix = rng.choice(['C', 'C', 'I'])
     if uniform:
-        while True:
-            lv = [rng.choice([1, 1, 2, 2, 3]) for _ in range(dim)]
-            N = 1
-            for l in lv:
-                N *= 2 ** l - 1
-            if N <= (27 if quick else 49):
-                break
+        if size == 'manyhats':
+            lv = rng.choice([[11], [10], [5, 6], [6, 5], [4, 7], [3, 4, 4]])
+            dim = len(lv)
+            # the smoothing matrix of > 1000 hats costs minutes in the implementation: identity or no regularisation
+            matrix = 'I'
+            lam = rng.choice([0, 0, 0.125]) if len(lv) > 1 or lv[0] <= 10 else 0
+        elif size == 'midhats':
+            lv = rng.choice([[8], [4, 4], [3, 5], [5, 3], [2, 3, 3], [2, 6]])
+            dim = len(lv)
+        else:
+            capN = 9 if size == 'manyrows' else (27 if quick else 49)
+            while True:
+                lv = [rng.choice([1, 1, 2, 2, 3]) for _ in range(dim)]
+                N = 1
+                for l in lv:
+                    N *= 2 ** l - 1
+                if N <= capN:
+                    break
         grid = dict(lv=lv)
     else:
+        capN = 8 if size == 'manyrows' else (24 if quick else 40)
         while True:
-            sl = [_de.gen_stripe(rng, rng.choice([2, 3, 3, 4]), 1, 5) for _ in range(dim)]
+            sl = [_de.gen_stripe(rng, rng.choice([2, 3, 3, 4]), 1, 7) for _ in range(dim)]
             N = 1
             for s, _ in sl:
                 N *= len(s) - 2
-            if N <= (24 if quick else 40):
+            if N <= capN:
                 break
         grid = dict(stripes=[s for s, _ in sl], levels=[l for _, l in sl])
-    M = rng.choice([3, 5, 8, 12, 20, 30])
-    data, y = gen_xy(rng, dim, M)
-    c = dict(kind='uniform' if uniform else 'dimension-wise', dim=dim, lam=rng.choice([0, 0, 0.125, 0.125, 0.01, 1.0]),
-             matrix=rng.choice(['C', 'C', 'I']), data=data, y=y)
+        if size == 'manyrows':
+            # exact model evaluation of large systems is restricted to cases without the (defective, see findings)
+            # dimension-wise smoothing matrix
+            if rng.random() < 0.5:
+                matrix = 'I'
+            else:
+                lam = 0
+    if size == 'manyrows':
+        M = rng.choice([rng.randrange(65, 300), rng.randrange(1025, 1500), rng.randrange(1025, 2600)])
+    elif size in ('manyhats', 'midhats'):
+        M = rng.choice([3, 5, 8])
+    else:
+        M = rng.choice([1, 2, 3, 5, 8, 12, 20, 30])
+    data, y, st, yst = gen_xy(rng, dim, M, style='dyadic01' if size else None)
+    c = dict(kind='uniform' if uniform else 'dimension-wise', dim=dim, lam=lam, matrix=matrix, data=data, y=y, style=st,
+             ystyle=yst)
     c.update(grid)
     return c
 
 
-def gen_train(rng, adaptive=False):
-    dim = rng.choice([1, 2, 2])
-    M = rng.choice([12, 20, 30])
-    data, y = gen_xy(rng, dim, M)
-    return dict(kind='train-adaptive' if adaptive else 'train', dim=dim, lam=rng.choice([0, 0.125, 0.01]),
-                matrix=rng.choice(['C', 'I']), data=data, y=y, lmin=1, lmax=rng.choice([2, 3]) if dim < 3 else 2,
-                pct=rng.choice([0.2, 0.3]))
+def gen_train(rng, adaptive=False, size='small'):
+    """size: 'small' | 'medium' (training size straddles 64..512) | 'large' (> 1024) | 'xlarge' (> 2048 / 4096)"""
+    pct = rng.choice([0.2, 0.2, 0.3, 0.1, 0.5])
+    if size == 'small':
+        dim = rng.choice([1, 2, 2, 3]) if not adaptive else rng.choice([1, 2, 2])
+        M = rng.choice([6, 12, 20, 30, 45])
+        lmin, lmax = rng.choice([(1, 2), (1, 2), (1, 3), (2, 3), (2, 2), (1, 1)])
+        if dim == 3:
+            lmin, lmax = rng.choice([(1, 2), (1, 3), (2, 2)])
+        if dim == 2 and rng.random() < 0.08:
+            lmin, lmax = rng.choice([(1, 4), (2, 4)])
+        if rng.random() < 0.06 and not adaptive:
+            dim, lmin, lmax = 4, 1, 2
+    else:
+        m = dict(medium=rng.choice([rng.randrange(65, 130), rng.randrange(129, 260), rng.randrange(257, 520)]),
+                 large=rng.choice([rng.randrange(1025, 1400), rng.randrange(1025, 2040)]),
+                 xlarge=rng.choice([rng.randrange(2049, 2600), rng.randrange(4097, 4400)]))[size]
+        M = n_for_training_size(m, pct)
+        if size == 'xlarge':
+            dim, lmin, lmax = 1, 1, 2
+        else:
+            dim = rng.choice([1, 2])
+            lmin, lmax = (1, 2) if dim == 2 else rng.choice([(1, 2), (1, 3)])
+    lam = rng.choice([0, 0.125, 0.01, 1e-4, 10.0])
+    matrix = rng.choice(['C', 'I'])
+    c = dict(kind='train-adaptive' if adaptive else 'train', dim=dim, lam=lam, matrix=matrix, lmin=lmin, lmax=lmax, pct=pct)
+    if adaptive:
+        c['max_evals'] = rng.choice([0, 0, 6, 12, 20]) if size == 'small' else 0
+        if size != 'small' and matrix == 'C':
+            c['lam'] = 0
+    elif rng.random() < 0.25:
+        c['noisy'] = True
+    data, y, st, yst = gen_xy(rng, dim, M, style=None if size == 'small' else 'dyadic01')
+    if rng.random() < 0.15:
+        c['container'] = 'list'
+    c.update(data=data, y=y, style=st, ystyle=yst)
+    return c
 
 
 def gen_construct(rng):
     dim = rng.choice([1, 2, 3])
-    M = rng.choice([2, 5, 9])
-    data, y = gen_xy(rng, dim, M, below_minus_one=rng.random() < 0.5)
-    return dict(kind='construct', dim=dim, lam=rng.choice([0, 0.125]), matrix=rng.choice(['C', 'I']), data=data, y=y)
+    M = rng.choice([1, 2, 5, 9])
+    data, y, st, yst = gen_xy(rng, dim, M, below_minus_one=rng.random() < 0.5)
+    c = dict(kind='construct', dim=dim, lam=rng.choice([0, 0.125]), matrix=rng.choice(['C', 'I']), data=data, y=y, style=st,
+             ystyle=yst)
+    if rng.random() < 0.3:
+        c['all_defaults'] = True       # not even the print / log level arguments
+    return c
+
+
+def gen_history(rng, quick):
+    """2-4 requests; 'reuse' = on the object of the previous step (same data, lambda, matrix), else a new object in the
+    same process (module / class level state).  Histories the unchanged library cannot run (train() after
+    train_spatially_adaptive(): AttributeError in StandardCombi) are not generated."""
+    flavour = rng.choice(['direct-u', 'direct-u', 'direct-dw', 'train-train', 'train-train', 'adaptive-adaptive', 'objects',
+                          'objects', 'train-direct'])
+    steps = []
+    if flavour in ('direct-u', 'direct-dw'):
+        base = gen_direct(rng, quick, flavour == 'direct-u')
+        M = max(len(base['data']), 6)
+        if len(base['data']) < M:
+            base = dict(base)
+            base['data'], base['y'], base['style'], base['ystyle'] = gen_xy(rng, base['dim'], M)
+        for k in range(rng.choice([2, 3, 4])):
+            s = dict(base)
+            if k:
+                s['reuse'] = True
+                g = gen_direct(rng, quick, flavour == 'direct-u')
+                tries = 0
+                while g['dim'] != base['dim'] and tries < 50:
+                    g = gen_direct(rng, quick, flavour == 'direct-u')
+                    tries += 1
+                if g['dim'] == base['dim']:
+                    for key in ('lv', 'stripes', 'levels'):
+                        if key in g:
+                            s[key] = g[key]
+                if flavour == 'direct-u' and rng.random() < 0.5:
+                    # same number of hats, other shape: permuted level vector
+                    s['lv'] = list(rng.sample(steps[-1]['lv'], len(steps[-1]['lv'])))
+                if rng.random() < 0.6:
+                    # another training subset of the same object
+                    rows = sorted(rng.sample(range(M), rng.randrange(max(2, M // 2), M + 1)))
+                    s['rows'] = rows
+            steps.append(s)
+    elif flavour in ('train-train', 'adaptive-adaptive', 'train-direct'):
+        base = gen_train(rng, adaptive=flavour == 'adaptive-adaptive')
+        base.pop('noisy', None)
+        if base['dim'] == 4:
+            base = gen_train(rng, adaptive=flavour == 'adaptive-adaptive')
+            base.pop('noisy', None)
+        steps.append(base)
+        for k in range(rng.choice([1, 1, 2])):
+            s = dict(base, reuse=True)
+            s['pct'] = rng.choice([p for p in (0.1, 0.2, 0.3, 0.4, 0.5) if p != steps[-1].get('pct')])
+            if base['dim'] != 4:
+                s['lmin'], s['lmax'] = rng.choice([(1, 2), (1, 3), (2, 3), (2, 2)]) if base['dim'] < 3 else rng.choice([(1, 2), (2, 2)])
+            if flavour == 'adaptive-adaptive':
+                s['max_evals'] = rng.choice([0, 6, 12])
+            if flavour == 'train-direct':
+                lv = [rng.choice([1, 2, 2, 3]) for _ in range(base['dim'])]
+                s = dict(base, reuse=True, kind='uniform', lv=lv)
+                M = len(base['data'])
+                s['rows'] = sorted(rng.sample(range(M), rng.randrange(max(2, M // 2), M + 1)))
+                for key in ('lmin', 'lmax', 'pct', 'noisy', 'max_evals'):
+                    s.pop(key, None)
+            steps.append(s)
+    else:       # several objects in one process: other data / lambda / matrix, same level vectors
+        a = gen_train(rng) if rng.random() < 0.5 else gen_direct(rng, quick, True)
+        a.pop('noisy', None)
+        steps.append(a)
+        for k in range(rng.choice([1, 2])):
+            b = dict(a)
+            b['data'], b['y'], b['style'], b['ystyle'] = gen_xy(rng, a['dim'], rng.choice([6, 12, 20, 30]) if a['kind'] == 'train'
+                                                                 else rng.choice([3, 5, 8, 12]))
+            b['lam'] = rng.choice([x for x in (0, 0.125, 0.01, 1.0) if x != a['lam']])
+            b['matrix'] = rng.choice(['C', 'I'])
+            steps.append(b)
+    return dict(kind='history', flavour=flavour, dim=steps[0]['dim'], steps=steps)
 
 
 CORPUS = [
@@ -194,6 +444,15 @@ CORPUS = [
          data=[[0.0], [1.0], [0.5], [0.25]], y=[1.0, 2.0, 0.5, -1.0]),
     dict(kind='train-adaptive', dim=1, lam=0, matrix='I', data=[[i / 16] for i in range(0, 17)], y=[(i % 5) / 4 for i in range(17)],
          lmin=1, lmax=2, pct=0.2),
+    # all training targets zero: every surplus is zero, the Opticom normalisation divides 0 by 0
+    dict(kind='train', dim=1, lam=0.125, matrix='C', data=[[i / 16] for i in range(0, 17)], y=[0.0] * 17, lmin=1, lmax=2, pct=0.2),
+    # noisy_data with only negative targets: the noise level max(targets) * 0.01 is negative
+    dict(kind='train', dim=1, lam=0.125, matrix='C', data=[[i / 16] for i in range(0, 17)], y=[-1.0 - (i % 5) / 4 for i in range(17)],
+         lmin=1, lmax=2, pct=0.2, noisy=True),
+    # three dimensions, level 2 in a leading dimension (couplings far from the diagonal in the row-major ordering)
+    dict(kind='uniform', dim=3, lv=[2, 1, 2], lam=0.125, matrix='C',
+         data=[[0.0, 0.0, 0.0], [1.0, 1.0, 1.0], [0.25, 0.75, 0.25], [0.75, 0.25, 0.5625], [0.5625, 0.5625, 0.75]],
+         y=[1.0, 2.0, 0.5, -1.0, 0.0]),
 ]
 
 
@@ -202,36 +461,50 @@ def _mk(case, default_range=False):
     import numpy as np
     from sparseSpACE.GridOperation import Regression
     from sparseSpACE.Utils import print_levels, log_levels
-    kw = dict(print_level=print_levels.ERROR, log_level=log_levels.ERROR)
+    kw = {} if case.get('all_defaults') else dict(print_level=print_levels.ERROR, log_level=log_levels.ERROR)
     if not default_range:
         kw['rangee'] = RANGE
-    return Regression(data=np.array(case['data'], dtype=float), target_values=np.array(case['y'], dtype=float),
-                      regularization=case['lam'], regularization_matrix=case['matrix'], **kw)
+    if case.get('container') == 'list':
+        data, y = [list(x) for x in case['data']], list(case['y'])
+    elif case.get('style') == 'int':
+        data, y = np.array(case['data'], dtype=int), np.array(case['y'], dtype=float)
+    else:
+        data, y = np.array(case['data'], dtype=float), np.array(case['y'], dtype=float)
+    return Regression(data=data, target_values=y, regularization=case['lam'], regularization_matrix=case['matrix'], **kw)
 
 
-def impl_case(case):
+def _lvkey(lv):
+    return ','.join(str(int(x)) for x in lv)
+
+
+def _step(r, case):
+    """one request on the object r; everything observable is copied out"""
     import numpy as np
     kind = case['kind']
     out = {}
-    if kind == 'construct':
-        r = _mk(case, default_range=True)       # "with default construction arguments"
-        out['data'] = _de.tolist(r.data); out['y'] = _de.tolist(r.target_values)
-        return out
-    r = _mk(case)
     out['data'] = _de.tolist(r.data); out['y'] = _de.tolist(r.target_values)
-    if kind == 'construct-explicit-range':
+    if kind.startswith('construct'):
         return out
     dim = case['dim']
     if kind in ('uniform', 'dimension-wise'):
-        r.training_data = r.data
-        r.training_target_values = r.target_values
+        rows = case.get('rows')
+        if rows is None:
+            r.training_data = r.data
+            r.training_target_values = r.target_values
+        else:
+            r.training_data = np.asarray(r.data)[rows]
+            r.training_target_values = np.asarray(r.target_values)[rows]
+        out['train_data'] = _de.tolist(r.training_data); out['train_y'] = _de.tolist(r.training_target_values)
         if kind == 'uniform':
             lv = [int(l) for l in case['lv']]
+            N = int(np.prod(2 ** np.asarray(lv, dtype=int) - 1))
             r.grid.numPoints = 2 ** np.asarray(lv, dtype=int) - 1
             out['A'] = _de.tolist(r.build_A_matrix(lv))
-            out['C'] = _de.tolist(r.build_C_matrix(lv))
+            out['C'] = _de.tolist(r.build_C_matrix(lv)) if N <= N_C_IMPL else None
             from sparseSpACE.ComponentGridInfo import ComponentGridInfo
-            out['alphas'] = _de.tolist(r.evaluate_levelvec(ComponentGridInfo(lv, 1)))
+            al = r.evaluate_levelvec(ComponentGridInfo(lv, 1))
+            out['alphas'] = _de.tolist(al)
+            out['stored'] = _de.tolist(r.surpluses[tuple(lv)])
         else:
             from sparseSpACE.Grid import GlobalTrapezoidalGrid
             stripes = [list(s) for s in case['stripes']]
@@ -246,40 +519,93 @@ def impl_case(case):
                 al = r.solve_regression_dimension_wise_smooth(stripes, levels, None)
             out['alphas'] = _de.tolist(al)
         return out
-    # training runs + Opticom
+    # ---- training runs + Opticom on ONE object
+    calls = []
+    if kind == 'train-adaptive':
+        orig = r.__class__.calculate_operation_dimension_wise
+
+        def logged(stripes, levels, cg, r=r, calls=calls):
+            res = orig(r, stripes, levels, cg)
+            st = [[float(v) for v in s] for s in stripes]
+            lv = [[int(v) for v in s] for s in levels]
+            rec = dict(lv=[int(x) for x in cg.levelvector], stripes=st, levels=lv,
+                       alphas=_de.tolist(r.surpluses[tuple(cg.levelvector)]))
+            calls.append(rec)
+            return res
+        r.calculate_operation_dimension_wise = logged
+        try:
+            combi = r.train_spatially_adaptive(case['pct'], 0.5, 1e-5, case.get('max_evals', 0), False, False)
+        finally:
+            del r.calculate_operation_dimension_wise
+    else:
+        combi = r.train(case['pct'], case['lmin'], case['lmax'], bool(case.get('noisy')))
+    out['train_data'] = _de.tolist(r.training_data)
+    out['train_y'] = _de.tolist(r.training_target_values)
+    out['n_validation'] = int(len(r.validation_target_values))
+    out['n_test'] = int(len(r.test_target_values))
+    out['scheme'] = [[int(x) for x in g.levelvector] for g in combi.scheme]
+    out['surpluses'] = {_lvkey(g.levelvector): _de.tolist(r.surpluses[tuple(g.levelvector)]) for g in combi.scheme}
+    out['A'] = {}
+    out['C'] = {}
+    if kind == 'train':
+        for g in combi.scheme:
+            lv = [int(x) for x in g.levelvector]
+            r.grid.numPoints = 2 ** np.asarray(lv, dtype=int) - 1
+            out['A'][_lvkey(lv)] = _de.tolist(r.build_A_matrix(lv))
+            if case['matrix'] == 'C' and case['lam'] != 0 and int(np.prod(r.grid.numPoints)) <= 64:
+                out['C'][_lvkey(lv)] = _de.tolist(r.build_C_matrix(lv))
+    else:
+        # every solve of the run (all refinement iterations); the last ones are those of the final scheme
+        keep = calls[:3] + calls[-9:] if len(calls) > 12 else calls
+        for rec in keep:
+            rec['A'] = _de.tolist(r.build_A_matrix_dimension_wise(rec['stripes'], rec['levels']))
+        out['calls'] = keep
+        out['n_calls'] = len(calls)
+    saved = [g.coefficient for g in combi.scheme]
     opt = {}
     for option in (1, 2, 3):
-        rr = _mk(case)
-        stripes_log = {}
-        if kind == 'train-adaptive':
-            orig = rr.calculate_operation_dimension_wise
-
-            def logged(stripes, levels, cg, orig=orig, log=stripes_log):
-                log[','.join(str(int(x)) for x in cg.levelvector)] = [[float(v) for v in s] for s in stripes]
-                return orig(stripes, levels, cg)
-            rr.calculate_operation_dimension_wise = logged
-        if kind == 'train':
-            combi = rr.train(case['pct'], case['lmin'], case['lmax'], False)
-        else:
-            combi = rr.train_spatially_adaptive(case['pct'], 0.5, 1e-5, 0, False, False)
-        if option == 1:
-            out['train_data'] = _de.tolist(rr.training_data)
-            out['train_y'] = _de.tolist(rr.training_target_values)
-            out['scheme'] = [[int(x) for x in g.levelvector] for g in combi.scheme]
-            out['surpluses'] = {','.join(str(int(x)) for x in k): _de.tolist(v) for k, v in rr.surpluses.items()}
-            out['stripes'] = stripes_log
+        for g, c in zip(combi.scheme, saved):
+            g.coefficient = c
         try:
             if kind == 'train':
-                rr.optimize_coefficients(combi, option)
+                r.optimize_coefficients(combi, option)
             else:
-                rr.optimize_coefficients_spatially_adaptive(combi, option)
+                r.optimize_coefficients_spatially_adaptive(combi, option)
             opt[option] = ('ok', [float(g.coefficient) for g in combi.scheme])
         except Exception as e:       # exceptions are observables
+            if type(e).__name__ == 'CaseTimeout':
+                raise
             import traceback
             tb = traceback.extract_tb(e.__traceback__)
             opt[option] = ('exc', type(e).__name__, '%s:%d' % (tb[-1].filename.split('/')[-1], tb[-1].lineno), str(e)[:120])
     out['opticom'] = opt
     return out
+
+
+def impl_case(case):
+    """returns one (status, value) per executed step; stops at the first step that raises"""
+    import traceback
+    from ..impl import REPO
+    steps = case['steps'] if case['kind'] == 'history' else [case]
+    outs = []
+    obj = None
+    for st in steps:
+        try:
+            if not (st.get('reuse') and obj is not None):
+                obj = _mk(st, default_range=st['kind'] == 'construct')       # "with default construction arguments"
+            outs.append(('ok', _step(obj, st)))
+        except Exception as e:
+            if type(e).__name__ == 'CaseTimeout':
+                raise
+            tb = traceback.extract_tb(e.__traceback__)
+            where = ''
+            for frm in reversed(tb):
+                if REPO in frm.filename:
+                    where = '%s:%d' % (os.path.relpath(frm.filename, REPO), frm.lineno)
+                    break
+            outs.append(('exc', (type(e).__name__, where, str(e)[:300])))
+            break
+    return outs
 
 
 # ----------------------------------------------------------------------------------------------- comparison
@@ -290,14 +616,10 @@ def _sig(case, obs, **kw):
 
 
 def _key(case):
-    return (case['kind'], str(case.get('lv') or case.get('stripes') or (case.get('lmin'), case.get('lmax'))), case['lam'],
-            case['matrix'], str(case['data']), str(case['y']))
-
-
-def _stripes(case):
-    if 'lv' in case:
-        return _de.uniform_stripes(case['lv'])
-    return fr(case['stripes'])
+    if case['kind'] == 'history':
+        return ('history',) + tuple(_key(s) for s in case['steps'])
+    return (case['kind'], str(case.get('lv') or case.get('stripes') or (case.get('lmin'), case.get('lmax'), case.get('pct'))),
+            case['lam'], case['matrix'], str(case.get('rows')), hash(str(case['data'])), hash(str(case['y'])))
 
 
 def near_node(stripes, data):
@@ -311,199 +633,537 @@ def near_node(stripes, data):
     return False
 
 
-def _check_scaling(chk, c, r):
+def _bucket(n):
+    """position of a size relative to the usual internal block sizes / thresholds"""
+    prev = 0
+    for t in THRESHOLDS:
+        if n <= t:
+            return '%d..%d' % (prev + 1, t)
+        prev = t
+    return '>%d' % THRESHOLDS[-1]
+
+
+def _check_scaling(chk, c, rep, r):
     """property clause 'data scaling at construction': min-max scaling of every feature to [0.05, 0.95], targets untouched"""
     data = fr(c['data']); sd = fr(r['data'])
     lo, hi = sx.rat(RANGE[0]), sx.rat(RANGE[1])
+    if len(sd) != len(data):
+        chk.violation('oracle:scaling', 'scaling-differs', _sig(c, 'scaling'), rep, dict(rows=len(sd), want=len(data)))
+        return False
     for d in range(c['dim']):
         col = [x[d] for x in data]
         mn, mx = min(col), max(col)
+        # MinMaxScaler computes x * scale + (lo - min * scale): absolute error about eps * |x| * scale (cancellation-aware bound)
+        amp = float(max(abs(mn), abs(mx)) / (mx - mn)) if mx != mn else 1.0
         for x, s in zip(data, sd):
-            want = lo + (x[d] - mn) / (mx - mn) * (hi - lo) if mx != mn else None
-            if want is not None and not _de.close(s[d], want, 1e-12):
-                chk.violation('oracle:scaling', 'scaling-differs', _sig(c, 'scaling'), c, dict(got=float(s[d]), want=float(want)))
+            want = lo + (x[d] - mn) / (mx - mn) * (hi - lo) if mx != mn else lo
+            if not _de.close(s[d], want, 1e-12, 0, 1e-13 + 16 * _de.EPS * amp):
+                chk.violation('oracle:scaling', 'scaling-differs', _sig(c, 'scaling'), rep, dict(got=float(s[d]), want=float(want)))
                 return False
     if fr(r['y']) != fr(c['y']):
-        chk.violation('oracle:scaling', 'targets-changed', _sig(c, 'targets'), c, dict(got=r['y'][:5]))
+        chk.violation('oracle:scaling', 'targets-changed', _sig(c, 'targets'), rep, dict(got=r['y'][:5]))
         return False
     return True
 
 
-def _check_grid(chk, c, grid, A_i, C_i, al_i, data_s, y_s, mres, via):
-    """one component grid: design matrix, smoothing matrix, normal equations. grid = dict(lv=..) or dict(stripes=..)"""
+def _check_split(chk, c, rep, r):
+    """the training set is a sub-multiset of the (scaled data, target) pairs with the size of the documented split"""
+    want = split_sizes(len(c['data']), c['pct'])
+    got = (len(r['train_data']), r['n_validation'] - len(r['train_data']), r['n_test'])
+    ok = got == want and len(r['train_y']) == got[0]
+    if ok:
+        pool = {}
+        for x, t in zip(r['data'], r['y']):
+            k = (tuple(x), t)
+            pool[k] = pool.get(k, 0) + 1
+        for x, t in zip(r['train_data'], r['train_y']):
+            k = (tuple(x), t)
+            if not c.get('noisy'):
+                if pool.get(k, 0) <= 0:
+                    ok = False
+                    break
+                pool[k] -= 1
+    if not ok:
+        chk.violation('oracle:training_split', 'training-split-differs', _sig(c, 'split'), rep,
+                      dict(sizes_train_validation_test=got, want=want))
+    return ok
+
+
+class Unit:
+    """one component-grid solve of one step"""
+    __slots__ = ('c', 'rep', 'grid', 'A_i', 'C_i', 'al_i', 'data_s', 'y_s', 'via', 'tier', 'rows', 'res', 'resC', 'resA', 'resP')
+
+    def __init__(self, c, rep, grid, A_i, C_i, al_i, data_s, y_s, via):
+        self.c, self.rep, self.grid, self.A_i, self.C_i, self.al_i = c, rep, grid, A_i, C_i, al_i
+        self.data_s, self.y_s, self.via = data_s, y_s, via
+        self.tier = None; self.rows = None; self.res = None; self.resC = None; self.resA = None; self.resP = None
+
+    def stripes(self):
+        return _de.uniform_stripes(self.grid['lv']) if 'lv' in self.grid else fr(self.grid['stripes'])
+
+    def nhats(self):
+        n = 1
+        for s in self.stripes():
+            n *= len(s) - 2
+        return n
+
+
+def sample_rows(m, N, rng):
+    """all rows when affordable, else: first, last, the rows around multiples of the usual block sizes and random ones"""
+    if N * m <= CAP_ROWS:
+        return list(range(m))
+    budget = max(8, CAP_ROWS // max(N, 1))
+    rows = {0, 1, m - 1, m - 2}
+    for t in THRESHOLDS:
+        k = t
+        while k < m + 2:
+            for r in (k - 1, k, k + 1):
+                if 0 <= r < m:
+                    rows.add(r)
+            k += t
+            if len(rows) > budget // 2:
+                break
+    rows = set(sorted(rows)[:budget // 2]) | {m - 1}
+    while len(rows) < min(budget, m):
+        rows.add(rng.randrange(m))
+    return sorted(rows)
+
+
+def _check_grid(chk, u):
+    """one component grid: design matrix, smoothing matrix, normal equations"""
+    c, grid, A_i, C_i, al_i, data_s, y_s = u.c, u.grid, u.A_i, u.C_i, u.al_i, u.data_s, u.y_s
     uniform = 'lv' in grid
-    stripes = _de.uniform_stripes(grid['lv']) if uniform else fr(grid['stripes'])
+    stripes = u.stripes()
+    N = u.nhats()
     lam = sx.rat(c['lam']); use_C = c['matrix'] == 'C'
-    gsig = dict(grid='uniform' if uniform else 'dimension-wise', via=via)
-    nn = near_node(stripes, data_s)
-    if sx.is_err(mres) or isinstance(mres, tuple):
-        chk.violation('corr:C20/model', 'model-rejects', gsig, dict(c, **grid), str(mres)[:300], failing_input=False)
-        return False
-    A_m, Cc_m, Cs_m, ok_coded, ok_spec = qmat(mres[0]), qmat(mres[1]), qmat(mres[2]), bool(mres[3]), bool(mres[4])
-    case = dict(c, **grid)
+    gsig = dict(grid='uniform' if uniform else 'dimension-wise', via=u.via)
+    rep = u.rep if u.rep['kind'] == 'history' else dict(c, **grid)
+    chk.count('model-tier=' + u.tier)
+    chk.count('training-rows=' + _bucket(len(data_s)))
+    chk.count('hats=' + _bucket(N))
+    for name, res in (('full', u.res), ('design', u.resA), ('C', u.resC), ('psd', u.resP)):
+        if res is not None and (sx.is_err(res) or isinstance(res, tuple)):
+            chk.violation('corr:C20/model', 'model-rejects', gsig, rep, '%s: %s' % (name, str(res)[:300]), failing_input=False)
+            return False
+    A_m = Cc_m = Cs_m = ok_coded = ok_spec = None
+    rows = u.rows if u.rows is not None else list(range(len(data_s)))
+    psd_spec_m = None
+    if u.res is not None:
+        A_m, Cc_m, Cs_m, ok_coded, ok_spec = qmat(u.res[0]), qmat(u.res[1]), qmat(u.res[2]), bool(u.res[3]), bool(u.res[4])
+        psd_spec_m = None if u.res[5] == 2 else bool(u.res[5])
+    if u.resA is not None:
+        A_m = qmat(u.resA)
+    if u.resC is not None:
+        Cc_m, Cs_m = qmat(u.resC[0]), qmat(u.resC[1])
+    nn = near_node(stripes, data_s) if len(data_s) * N <= 20000 else False
     ok = True
     # ---- design matrix = basis values at the training points
+    A_s = spec_A(stripes, data_s)
     if A_i is not None:
-        A_s = spec_A(stripes, data_s)
-        okm = mat_close(fr(A_i), A_m, REL_M, 1e-14); oks = mat_close(fr(A_i), A_s, REL_M, 1e-14)
+        Ai = fr(A_i)
+        oks = mat_close(Ai, A_s, REL_M, 1e-14)
+        okm = len(Ai) == len(A_s) and A_m is not None and mat_close([Ai[k] for k in rows], A_m, REL_M, 1e-14)
         if not (okm and oks):
+            bad = [k for k in range(min(len(Ai), len(A_s))) if not mat_close([Ai[k]], [A_s[k]], REL_M, 1e-14)]
             sg = dict(gsig, near_node=nn)
-            chk.violation('corr:C20/A' if not okm else 'oracle:design_matrix', 'design-matrix-differs', sg, case,
-                          dict(impl_vs_model=okm, impl_vs_spec=oks, impl=str(A_i)[:300],
-                               basis_values=str([[float(x) for x in r] for r in A_s])[:300]), failing_input=not oks)
+            chk.violation('corr:C20/A' if not okm else 'oracle:design_matrix', 'design-matrix-differs', sg, rep,
+                          dict(impl_vs_model=okm, impl_vs_spec=oks, shape=(len(Ai), len(Ai[0]) if Ai else 0),
+                               want_shape=(len(A_s), N), wrong_rows=len(bad), first_wrong_rows=bad[:5],
+                               impl=str([A_i[k] for k in bad[:2]] or A_i[:2])[:300],
+                               basis_values=str([[float(x) for x in A_s[k]] for k in (bad[:2] or [0])])[:300]),
+                          failing_input=not oks)
             return False
-    # ---- smoothing matrix
-    C_s = spec_C(stripes)
-    model_predicts = Cc_m != Cs_m
-    if mat_close(Cs_m, C_s, 1e-30, 0) is False:
-        chk.violation('corr:C20/C-spec', 'model-spec-vs-oracle', gsig, case, 'Coq specification matrix differs from the Python oracle',
+        chk.count('design-matrix-checked')
+    elif A_m is not None and not mat_close(A_m, [A_s[k] for k in rows], 1e-30, 0):
+        chk.violation('corr:C20/A-spec', 'model-spec-vs-oracle', gsig, rep, 'Coq design matrix differs from the Python oracle',
                       failing_input=False)
         return False
-    if C_i is not None:
-        okm = mat_close(fr(C_i), Cc_m, REL_M, 1e-14)
+    # ---- smoothing matrix
+    need_C = (use_C and lam != 0) or C_i is not None or Cs_m is not None
+    C_s = spec_C(stripes) if need_C and N <= N_C_IMPL else None
+    model_predicts = Cc_m is not None and Cc_m != Cs_m
+    if Cs_m is not None and mat_close(Cs_m, C_s, 1e-30, 0) is False:
+        chk.violation('corr:C20/C-spec', 'model-spec-vs-oracle', gsig, rep, 'Coq specification matrix differs from the Python oracle',
+                      failing_input=False)
+        return False
+    if psd_spec_m is not None and N <= N_PSD:
+        # the gradient Gram matrix of the grid (model specification) through the verified checker, cross-checked with the oracle
+        chk.count('psd-by-verified-checker(spec matrix)')
+        if psd_spec_m != is_psd(C_s)[0]:
+            chk.violation('checker:psd_check', 'checker-vs-oracle', gsig, rep, dict(checker=psd_spec_m, oracle=is_psd(C_s)), failing_input=False)
+            return False
+        if not psd_spec_m:
+            chk.violation('theorem:psd', 'gradient-gram-not-psd', gsig, rep, 'the specification matrix is rejected by psd_check', failing_input=False)
+            return False
+    if C_i is not None and C_s is not None:
+        okm = Cc_m is not None and mat_close(fr(C_i), Cc_m, REL_M, 1e-14)
         oks = mat_close(fr(C_i), C_s, REL_M, 1e-14)
         if oks:
             # the implementation matrix IS the gradient Gram matrix (property clause holds)
             chk.count('C-equals-gradient-gram')
-            psd, why = is_psd(fr(C_i))
-            if not psd:
-                chk.violation('oracle:psd', 'C-matrix-not-psd', _sig(c, 'C', **gsig), case, dict(why=why))
-                ok = False
+            if N <= N_PSD:
+                psd, why = is_psd(fr(C_i))
+                if u.resP is not None:
+                    chk.count('psd-by-verified-checker(implementation matrix)')
+                    if bool(u.resP) != psd:
+                        chk.violation('checker:psd_check', 'checker-vs-oracle', gsig, rep, dict(checker=bool(u.resP), oracle=psd, why=why),
+                                      failing_input=False)
+                        return False
+                if not psd:
+                    chk.violation('oracle:psd', 'C-matrix-not-psd', _sig(c, 'C', **gsig), rep, dict(why=why))
+                    ok = False
         elif okm:
             # the faithful model of the code reproduces the implementation and both differ from the gradient Gram matrix
             iso = uniform and len(set(grid['lv'])) == 1
             chk.violation('oracle:gradient_gram', 'C-matrix-not-gradient-gram',
-                          dict(gsig, model_predicts=model_predicts, isotropic=iso), dict(case, lam=c['lam']),
+                          dict(gsig, model_predicts=model_predicts, isotropic=iso), rep,
                           dict(impl=str(C_i)[:300], gradient_gram=str([[float(x) for x in r] for r in C_s])[:300]))
             ok = False
         else:
-            chk.violation('corr:C20/C', 'C-matrix-differs-from-model', _sig(c, 'C', **gsig), case,
-                          dict(impl=str(C_i)[:400], model=str([[float(x) for x in r] for r in Cc_m])[:400],
+            chk.violation('corr:C20/C', 'C-matrix-differs-from-model', _sig(c, 'C', **gsig), rep,
+                          dict(impl=str(C_i)[:400], model=str([[float(x) for x in r] for r in Cc_m])[:400] if Cc_m else None,
                                gradient_gram=str([[float(x) for x in r] for r in C_s])[:400]))
             return False
     # ---- normal equations of the stated problem, residual of the implementation's surpluses
     chk.count('residual-checks')
-    worst = spec_residual(spec_A(stripes, data_s), C_s, lam, use_C, y_s, fr(al_i))
+    if use_C and lam != 0 and C_s is None:
+        chk.count('skipped-residual-too-many-hats-for-C')
+        return ok
+    al = fr(al_i)
+    worst = spec_residual(A_s, C_s, lam, use_C, y_s, al)
     spec_ok = worst <= TOL_RES
-    if spec_ok != ok_spec and not (TOL_RES / 4 <= worst <= TOL_RES * 4):
-        chk.violation('checker:residual_ok', 'checker-vs-oracle', gsig, case, dict(worst=float(worst), checker=ok_spec), failing_input=False)
-        return False
+    if ok_spec is not None:
+        if spec_ok != ok_spec and not (TOL_RES / 4 <= worst <= TOL_RES * 4):
+            chk.violation('checker:residual_ok', 'checker-vs-oracle', gsig, rep, dict(worst=float(worst), checker=ok_spec), failing_input=False)
+            return False
+        chk.count('residual-by-verified-checker')
+    elif not spec_ok and Cc_m is not None and use_C and lam != 0:
+        ok_coded = spec_residual(A_s, Cc_m, lam, use_C, y_s, al) <= TOL_RES
     if spec_ok:
         chk.count('normal-equations-hold')
-    elif ok_coded:
+    elif ok_coded or ok_coded is None:
         chk.violation('oracle:normal_equations', 'normal-equations-violated',
-                      dict(gsig, model_predicts=model_predicts and use_C and lam != 0, matrix=c['matrix']), case,
-                      dict(relative_residual=float(worst), surpluses=str(al_i)[:300]))
+                      dict(gsig, model_predicts=bool(ok_coded) and model_predicts and use_C and lam != 0, matrix=c['matrix']), rep,
+                      dict(relative_residual=float(worst), training_rows=len(data_s), hats=N, surpluses=str(al_i)[:300]))
         ok = False
     else:
-        chk.violation('corr:C20/surpluses', 'surpluses-do-not-solve-model-system', dict(gsig, near_node=nn, matrix=c['matrix']), case,
-                      dict(impl=str(al_i)[:300], worst_residual_vs_stated_problem=float(worst)))
+        chk.violation('corr:C20/surpluses', 'surpluses-do-not-solve-model-system', dict(gsig, near_node=nn, matrix=c['matrix']), rep,
+                      dict(impl=str(al_i)[:300], worst_residual_vs_stated_problem=float(worst), training_rows=len(data_s), hats=N))
         return False
     return ok
 
 
-def process(chk, cases, verbose=False):
-    nv0 = len(chk.violations)
-    impl = run_impl(impl_case, cases, limit=300)
-    # model calls
-    mc, mi = [], []
-    for i, c in enumerate(cases):
-        st, r = impl[i]
-        if st != 'ok':
+def _units_of_step(chk, c, rep, r):
+    """component-grid solves observed in one step (with the sanity checks that belong to the step as a whole)"""
+    k = c['kind']
+    us = []
+    if k in ('uniform', 'dimension-wise'):
+        grid = dict(lv=c['lv']) if k == 'uniform' else dict(stripes=c['stripes'])
+        want = [(x, t) for x, t in zip(r['data'], r['y'])]
+        if c.get('rows') is not None:
+            want = [want[i] for i in c['rows']]
+        if [(x, t) for x, t in zip(r['train_data'], r['train_y'])] != want:
+            chk.violation('corr:C20/harness', 'training-rows-not-set', {}, rep, 'harness could not set the training subset', failing_input=False)
+            return None
+        if k == 'uniform' and r['stored'] != r['alphas']:
+            chk.violation('oracle:surpluses_stored', 'stored-surpluses-differ', _sig(c, 'surpluses'), rep,
+                          dict(returned=str(r['alphas'])[:200], stored=str(r['stored'])[:200]))
+            return None
+        us.append(Unit(c, rep, grid, r['A'], r['C'], r['alphas'], fr(r['train_data']), fr(r['train_y']), 'direct'))
+    elif k == 'train':
+        td, ty = fr(r['train_data']), fr(r['train_y'])
+        for lv in r['scheme']:
+            key = _lvkey(lv)
+            us.append(Unit(c, rep, dict(lv=lv), r['A'].get(key), r['C'].get(key), r['surpluses'][key], td, ty, k))
+    elif k == 'train-adaptive':
+        td, ty = fr(r['train_data']), fr(r['train_y'])
+        chk.count('adaptive-solves-per-run=%s' % ('3' if r['n_calls'] <= 3 else '4..12' if r['n_calls'] <= 12 else '>12'))
+        seen = set()
+        final = {}
+        for rec in r['calls']:
+            final[_lvkey(rec['lv'])] = rec
+        for lv in r['scheme']:
+            rec = final.get(_lvkey(lv))
+            if rec is None:
+                if r['n_calls'] <= 12:
+                    chk.violation('corr:C20/harness', 'scheme-grid-without-solve', {}, rep, str(lv), failing_input=False)
+                continue
+            if rec['alphas'] != r['surpluses'][_lvkey(lv)]:
+                chk.violation('oracle:surpluses_stored', 'stored-surpluses-differ', _sig(c, 'surpluses'), rep,
+                              dict(levelvector=lv, last_solve=str(rec['alphas'])[:200], stored=str(r['surpluses'][_lvkey(lv)])[:200]))
+                return None
+        for rec in r['calls']:
+            kk = (str(rec['stripes']), str(rec['alphas']))
+            if kk in seen:
+                continue
+            seen.add(kk)
+            if any(len(s) > 3 and len(s) != 2 ** l + 1 for s, l in zip(rec['stripes'], rec['lv'])) or \
+                    any(len(s) - 1 not in (2, 4, 8, 16, 32, 64) for s in rec['stripes']):
+                chk.count('adaptive-solve-on-refined-(non-uniform)-stripes')
+            us.append(Unit(c, rep, dict(stripes=rec['stripes']), rec['A'], None, rec['alphas'], td, ty, k))
+    return us
+
+
+def _check_opticom(chk, c, rep, r):
+    ok = True
+    k = c['kind']
+    for option in (1, 2, 3):
+        o = r['opticom'][option]
+        chk.count('opticom-option-%d' % option)
+        variant = ('adaptive' if k == 'train-adaptive' else 'standard') + ('-regularised' if c['lam'] != 0 else '-plain')
+        if o[0] == 'exc':
+            chk.violation('oracle:opticom_sum_one', 'opticom-raises', dict(option=option, variant=variant, exc=o[1], where=o[2]),
+                          rep, dict(exception=o[1:]))
+            ok = False
             continue
-        k = c['kind']
-        lam = sx.rat(c['lam']); useC = c['matrix'] == 'C'
-        if k == 'uniform':
-            mc.append((0, [c['lv'], lam, useC, fr(r['data']), fr(r['y']), fr(r['alphas']), TOL_RES])); mi.append((i, None))
-        elif k == 'dimension-wise':
-            mc.append((1, [fr(c['stripes']), lam, useC, fr(r['data']), fr(r['y']), fr(r['alphas']), TOL_RES])); mi.append((i, None))
-        elif k in ('train', 'train-adaptive'):
-            for lv in r['scheme']:
-                key = ','.join(map(str, lv))
-                al = r['surpluses'][key]
-                if k == 'train':
-                    mc.append((0, [lv, lam, useC, fr(r['train_data']), fr(r['train_y']), fr(al), TOL_RES]))
-                else:
-                    mc.append((1, [fr(r['stripes'][key]), lam, useC, fr(r['train_data']), fr(r['train_y']), fr(al), TOL_RES]))
-                mi.append((i, tuple(lv)))
-    mres = dict(zip(mi, run_model(20, mc)))
-    keys, samples = [], []
+        if not all(math.isfinite(x) for x in o[1]):
+            # which variant, and whether some component grid reproduces the validation targets exactly (error 0 -> x/0)
+            chk.violation('oracle:opticom_sum_one', 'opticom-not-finite',
+                          dict(option=option, variant=variant,
+                               all_surpluses_zero=all(v == 0 for al in r['surpluses'].values() for v in al),
+                               constant_targets=len(set(r['train_y'])) == 1), rep, dict(coefficients=o[1]))
+            ok = False
+            continue
+        coefs = fr(o[1])
+        if len(coefs) != len(r['scheme']):
+            chk.violation('oracle:opticom_sum_one', 'opticom-sum-not-one', dict(option=option, variant=variant), rep,
+                          dict(coefficients=o[1], grids=len(r['scheme'])))
+            ok = False
+            continue
+        s = sum(coefs, F(0))
+        if not _de.close(s, 1, 1e-9):
+            chk.violation('oracle:opticom_sum_one', 'opticom-sum-not-one', dict(option=option, variant=variant), rep,
+                          dict(coefficients=o[1], sum=float(s)))
+            ok = False
+    return ok
+
+
+def _axes(chk, c):
+    chk.count('kind=' + c['kind']); chk.count('dim=%d' % c['dim'])
+    chk.count('lambda=%g' % c['lam']); chk.count('matrix=' + c['matrix'])
+    chk.count('samples=' + _bucket(len(c['data'])))
+    chk.count('data-style=' + c.get('style', 'corpus')); chk.count('target-style=' + c.get('ystyle', 'corpus'))
+    chk.count('container=' + c.get('container', 'ndarray'))
+    if c['kind'] in ('train', 'train-adaptive'):
+        chk.count('level-range=%d..%d' % (c['lmin'], c['lmax']) if c['kind'] == 'train' else 'max_evaluations=%d' % c.get('max_evals', 0))
+        chk.count('test-share=%g' % c['pct'])
+        chk.count('noisy_data=%s' % bool(c.get('noisy')))
+    if c['kind'] == 'uniform':
+        chk.count('level-vector=%s' % ('isotropic' if len(set(c['lv'])) == 1 else 'anisotropic'))
+    if c.get('rows') is not None:
+        chk.count('training-subset-changed-on-one-object')
+    if c.get('all_defaults'):
+        chk.count('constructor=all-defaults')
+
+
+def process(chk, cases, verbose=False):
+    import time
+    nv0 = len(chk.violations)
+    t0 = time.time()
+    impl = run_impl(impl_case, cases, limit=600) if len(cases) > 1 else run_impl(impl_case, cases, nproc=1, limit=600)
+    t_impl = time.time() - t0
+    # ---- flatten to steps and component-grid solves
+    steps = []          # (case index, step case, report case, result)
     for i, c in enumerate(cases):
-        k = c['kind']
         st, r = impl[i]
-        chk.count('kind=' + k); chk.count('dim=%d' % c['dim'])
-        if st != 'ok':
+        hist = c['kind'] == 'history'
+        sts = c['steps'] if hist else [c]
+        if hist:
+            chk.count('history=' + c.get('flavour', '?')); chk.count('history-length=%d' % len(sts))
+        if st != 'ok':          # time-out or failure outside the steps
             exc = r[0] if r else st
-            where = (r[1] if r else '').split(':')[0]
-            targets_below = min(c['y']) < -1
-            chk.violation('oracle:construct_and_train', 'raises', dict(path=k, exc=exc, where=where, targets_below_minus_one=targets_below), c,
-                          dict(impl=str(r)))
+            chk.violation('oracle:construct_and_train', 'raises', dict(path=c['kind'], exc=exc, where=(r[1] if r else '').split(':')[0],
+                                                                       targets_below_minus_one=False), c, dict(impl=str(r)))
+            continue
+        for k, (s, (sst, sr)) in enumerate(zip(sts, r)):
+            rep = dict(c, steps=sts[:k + 1]) if hist else c
+            steps.append((i, s, rep, sst, sr))
+    units = []
+    step_units = []
+    for (i, s, rep, sst, sr) in steps:
+        _axes(chk, s)
+        if s.get('reuse'):
+            chk.count('step-on-reused-object')
+        if sst != 'ok':
+            exc, where = sr[0], sr[1].split(':')[0]
+            sg = dict(path=s['kind'], exc=exc, where=where, targets_below_minus_one=min(s['y']) < -1)
+            if s.get('noisy'):
+                # train(noisy_data=True) draws noise with standard deviation max(targets) * 0.01
+                sg.update(noisy_data=True, max_target_negative=max(s['y']) < 0)
+            chk.violation('oracle:construct_and_train', 'raises', sg, rep, dict(impl=str(sr)))
+            step_units.append(None)
             continue
         chk.traces += 1
-        if not _check_scaling(chk, c, r):
+        if not _check_scaling(chk, s, rep, sr):
+            step_units.append(None)
             continue
-        if k.startswith('construct'):
-            keys.append(_key(c))
+        if s['kind'].startswith('construct'):
+            step_units.append([])
             continue
-        ok = True
-        if k in ('uniform', 'dimension-wise'):
-            grid = dict(lv=c['lv']) if k == 'uniform' else dict(stripes=c['stripes'])
-            ok = _check_grid(chk, c, grid, r['A'], r['C'], r['alphas'], fr(r['data']), fr(r['y']), mres[(i, None)], 'direct')
+        if s['kind'] in ('train', 'train-adaptive') and not _check_split(chk, s, rep, sr):
+            step_units.append(None)
+            continue
+        us = _units_of_step(chk, s, rep, sr)
+        step_units.append(us)
+        if us:
+            units += us
+    # ---- model calls (three tiers by cost)
+    mc, slot = [], []
+    nbig = 0
+    for u in units:
+        c = u.c
+        lam = sx.rat(c['lam']); useC = c['matrix'] == 'C'
+        N = u.nhats(); m = len(u.data_s); d = c['dim']
+        cost = N * N * m + 4 * N * N * d
+        uniform = 'lv' in u.grid
+        garg = u.grid['lv'] if uniform else fr(u.grid['stripes'])
+        if cost <= CAP_FULL and (cost <= 30000 or nbig < chk.n(10, 60)):
+            nbig += cost > 30000
+            u.tier = 'full'
+            mc.append((0 if uniform else 1, [garg, lam, useC, u.data_s, u.y_s, fr(u.al_i), TOL_RES])); slot.append((u, 'res'))
         else:
-            for lv in r['scheme']:
-                key = ','.join(map(str, lv))
-                al = r['surpluses'][key]
-                grid = dict(lv=lv) if k == 'train' else dict(stripes=r['stripes'][key])
-                ok = _check_grid(chk, c, grid, None, None, al, fr(r['train_data']), fr(r['train_y']), mres[(i, tuple(lv))],
-                                 k) and ok
-            for option in (1, 2, 3):
-                o = r['opticom'][option]
-                chk.count('opticom-option-%d' % option)
-                variant = ('adaptive' if k == 'train-adaptive' else 'standard') + ('-regularised' if c['lam'] != 0 else '-plain')
-                if o[0] == 'exc':
-                    chk.violation('oracle:opticom_sum_one', 'opticom-raises', dict(option=option, variant=variant, exc=o[1], where=o[2]),
-                                  c, dict(exception=o[1:]))
-                    ok = False
-                    continue
-                coefs = fr(o[1])
-                s = sum(coefs, F(0))
-                if not _de.close(s, 1, 1e-9):
-                    chk.violation('oracle:opticom_sum_one', 'opticom-sum-not-one', dict(option=option, variant=variant), c,
-                                  dict(coefficients=o[1], sum=float(s)))
-                    ok = False
+            u.tier = 'design-rows+C' if N <= N_C_MODEL else 'design-rows'
+            u.rows = sample_rows(m, N, chk.rng)
+            mc.append((5 if uniform else 6, [garg, [u.data_s[k] for k in u.rows]])); slot.append((u, 'resA'))
+            if N <= N_C_MODEL:
+                mc.append((2 if uniform else 3, [garg])); slot.append((u, 'resC'))
+        if u.C_i is not None and N <= 9 and d >= 2:
+            # verified checker psd_check on the exact rational image of the implementation's smoothing matrix
+            mc.append((7, [fr(u.C_i)])); slot.append((u, 'resP'))
+    t0 = time.time()
+    for (u, name), res in zip(slot, run_model(20, mc, nproc=16)):
+        setattr(u, name, res)
+    t_model = time.time() - t0
+    t0 = time.time()
+    # ---- compare
+    keys, samples = [], []
+    oks = {}
+    for u in units:
+        oks[id(u)] = _check_grid(chk, u)
+    for (i, s, rep, sst, sr), us in zip(steps, step_units):
+        if us is None:
+            continue
+        ok = all(oks[id(u)] for u in us)
+        if s['kind'] in ('train', 'train-adaptive'):
+            ok = _check_opticom(chk, s, rep, sr) and ok
         if verbose:
-            print('case', i, k, 'ok' if ok else 'DIFFERS')
-        N = len(mres[(i, None)][1]) if (i, None) in mres and not sx.is_err(mres[(i, None)]) else 3
-        if N >= 3 or k.startswith('train'):
-            keys.append(_key(c))
-        if ok and len(samples) < 3 and k in ('uniform', 'dimension-wise') and c['dim'] >= 2:
-            samples.append(dict(case={kk: c[kk] for kk in c}, impl_surpluses=r['alphas'][:8], impl_C_row0=r['C'][0][:8]))
+            print('case', i, s['kind'], 'ok' if ok else 'DIFFERS')
+        if s['kind'].startswith('construct') or s['kind'].startswith('train') or any(u.nhats() >= 3 for u in us):
+            keys.append(_key(s) + (('reuse', len(rep.get('steps', []))) if s.get('reuse') else ()))
+        if ok and len(samples) < 3 and s['kind'] in ('uniform', 'dimension-wise') and s['dim'] >= 2 and len(s['data']) <= 12 \
+                and us and us[0].nhats() <= 30:
+            samples.append(dict(case={kk: s[kk] for kk in s}, impl_surpluses=sr['alphas'][:8], impl_C_row0=(sr['C'] or [[None]])[0][:8]))
+    ph = chk.extra.setdefault('phase_seconds', dict(implementation=0.0, model=0.0, oracle=0.0))
+    ph['implementation'] += round(t_impl, 1); ph['model'] += round(t_model, 1); ph['oracle'] += round(time.time() - t0, 1)
     # last step of Opticom through the model (shared normalisation), on dyadic raw coefficients
     raw = [[F(chk.rng.randrange(-20, 21), 4) for _ in range(chk.rng.randrange(1, 7))] for _ in range(20)]
     raw = [cs for cs in raw if sum(cs) != 0]
     for cs, m in zip(raw, run_model(20, [(4, [cs]) for cs in raw])):
         if sx.q(m[1]) != 1:
             chk.violation('corr:C20/normalise', 'model-normalise', {}, dict(coefs=[str(x) for x in cs]), str(m), failing_input=False)
-    chk.record_cases(len(cases), keys,
-                     'Regression: default construction, direct calls on uniform level vectors (d 1..3, N<=49, mostly anisotropic) and '
-                     'dimension-wise stripes (N<=40), train() with StandardCombi (lmax<=3) and train_spatially_adaptive (initial scheme) '
-                     'followed by the three Opticom variants; data on dyadic lattices, targets in [-4,4] (construction cases also below -1), '
-                     'lambda in {0,.01,.125,1}, matrix C/I; non-trivial = at least 3 grid points or a training run; distinct by full case',
+    chk.record_cases(len(steps), keys,
+                     'Regression: default construction; direct calls on uniform level vectors (d 1..3, N<=49, mostly anisotropic; some '
+                     'with 200..2047 hats) and dimension-wise stripes (N<=40); train() with StandardCombi (d 1..4, levels 1..4, '
+                     'lmin 1..2, test share .1...5, noisy_data on/off, 6..4400 training samples straddling 64/128/200/256/512/1024/'
+                     '2048/4096) and train_spatially_adaptive (initial scheme and 6..20 refinement evaluations, every solve of the run) '
+                     'followed by the three Opticom variants; histories of 2-4 requests on one object / several objects per process; '
+                     'data on dyadic lattices, random floats, shifted/scaled, integer, duplicated, constant feature; targets dyadic/'
+                     'float/constant/large/ties (construction cases also below -1); lambda in {0,1e-6,1e-4,.01,.125,1,10,100}, matrix C/I; '
+                     'counted = steps; non-trivial = at least 3 grid points or a training run; distinct by full step',
                      samples)
     return len(chk.violations) - nv0
 
 
+# ----------------------------------------------------------------------------------------------- failing-input search
+class _Scratch:
+    """collector with the interface of Check used by process(), for re-running reduced cases"""
+    def __init__(self, chk):
+        self.violations = []; self.traces = 0; self.rng = chk.rng; self.extra = {}; self.quick = chk.quick
+        self.n = chk.n
+
+    def count(self, *a, **k):
+        pass
+
+    def record_cases(self, *a, **k):
+        pass
+
+    def violation(self, check, kind, sig, case, detail, failing_input=True, size=None):
+        self.violations.append(dict(check=check, kind=kind, sig=sig, case=case, detail=detail, failing_input=failing_input))
+
+
+def shrink(chk, first_new):
+    """large failing inputs: replace by the smallest leading part of the data set (bisection) that still shows a violation of
+    the same kind"""
+    done = 0
+    kinds = ('design-matrix-differs', 'normal-equations-violated', 'surpluses-do-not-solve-model-system', 'scaling-differs',
+             'training-split-differs', 'C-matrix-differs-from-model', 'stored-surpluses-differ', 'opticom-sum-not-one', 'raises')
+    for v in chk.violations[first_new:]:
+        c = v['case']
+        if done >= 2:
+            break
+        if v['kind'] not in kinds or v['sig'].get('model_predicts'):
+            continue       # (known) findings that do not depend on the size of the data set
+        if not v['failing_input'] or not isinstance(c, dict) or c.get('kind') not in ('train', 'uniform', 'dimension-wise', 'train-adaptive'):
+            continue
+        n = len(c.get('data', []))
+        if n <= 96 or c.get('rows') is not None:
+            continue
+
+        def fails(k):
+            cc = dict(c, data=c['data'][:k], y=c['y'][:k])
+            s = _Scratch(chk)
+            try:
+                process(s, [cc])
+            except Exception:
+                return None
+            hit = [w for w in s.violations if w['kind'] == v['kind'] and w['failing_input']]
+            return hit[0] if hit else None
+        done += 1
+        try:       # workers forked from here on inherit the loaded library (no import per reduced case)
+            import sparseSpACE.GridOperation  # noqa: F401
+        except Exception:
+            pass
+        lo, hi, best = 8, n, None
+        for _ in range(10):
+            if hi - lo <= 1:
+                break
+            mid = (lo + hi) // 2
+            w = fails(mid)
+            if w:
+                hi, best = mid, w
+            else:
+                lo = mid
+        if best:
+            v['case'] = best['case']; v['detail'] = dict(best['detail'], reduced_from_samples=n) if isinstance(best['detail'], dict) else best['detail']
+            v['size'] = len(str(best['case']))
+
+
 def run(chk):
+    import time
+    t0 = time.time()
     chk.coq_obligations()
+    chk.extra['seconds_coq_obligations_incl_waiting_for_the_build_lock'] = round(time.time() - t0, 1)
     rng = chk.rng
     q = chk.quick
     cases = list(CORPUS)
     cases += [gen_construct(rng) for _ in range(chk.n(8, 60))]
-    cases += [gen_direct(rng, q, True) for _ in range(chk.n(70, 1200))]
-    cases += [gen_direct(rng, q, False) for _ in range(chk.n(60, 1000))]
+    cases += [gen_direct(rng, q, True) for _ in range(chk.n(60, 1200))]
+    cases += [gen_direct(rng, q, False) for _ in range(chk.n(50, 1000))]
+    cases += [gen_direct(rng, q, True, size='manyrows') for _ in range(chk.n(4, 20))]
+    cases += [gen_direct(rng, q, False, size='manyrows') for _ in range(chk.n(4, 20))]
+    cases += [gen_direct(rng, q, True, size='manyhats') for _ in range(chk.n(2, 12))]
+    cases += [gen_direct(rng, q, True, size='midhats') for _ in range(chk.n(2, 12))]
     cases += [gen_train(rng) for _ in range(chk.n(14, 150))]
-    cases += [gen_train(rng, adaptive=True) for _ in range(chk.n(6, 60))]
+    cases += [gen_train(rng, size='medium') for _ in range(chk.n(6, 30))]
+    cases += [gen_train(rng, size='large') for _ in range(chk.n(3, 20))]
+    cases += [gen_train(rng, size='xlarge') for _ in range(chk.n(1, 6))]
+    cases += [gen_train(rng, adaptive=True) for _ in range(chk.n(8, 60))]
+    cases += [gen_train(rng, adaptive=True, size='medium') for _ in range(chk.n(1, 8))]
+    cases += [gen_train(rng, adaptive=True, size='large') for _ in range(chk.n(1, 6))]
+    cases += [gen_history(rng, q) for _ in range(chk.n(24, 300))]
+    nv0 = len(chk.violations)
     process(chk, cases)
+    shrink(chk, nv0)
 
 
 def replay(chk, rep):
